@@ -61,7 +61,13 @@ impl Continuous for ChiSquared {
             return 0.;
         }
         let half_k = (self.dof as f64) / 2.;
-        1. / (2_f64.powf(half_k) * gamma(half_k)) * x.powf(half_k - 1.) * (-x / 2.).exp()
+        if x == 0. {
+            // limit of the density at the left end point (dof = 1 is handled above)
+            return if self.dof == 2 { 0.5 } else { 0. };
+        }
+        // evaluated in the log domain: x^(k/2 - 1) overflows far in the tail while exp(-x/2)
+        // underflows (inf * 0 = NaN) although the density itself is still representable
+        (-half_k * 2_f64.ln() - gamma(half_k).ln() + (half_k - 1.) * x.ln() - x / 2.).exp()
     }
 }
 
